@@ -820,6 +820,12 @@ pub fn candidates(spec: &Spec, k: usize, r: &mut Rng, random_extra: usize) -> Ve
                     }
                 };
                 out.push(Candidate { content: render(spec, k, &over, &default_counts), component: comp_label.clone(), class: label.clone() });
+                // the boundary lengths with the optional lines *before* the component absent (single-line forms
+                // of two-line fields take their own code path)
+                if (len == c.max || len == c.max + 1 || len == c.min) && len > 0 && spec.lines.iter().take(li).any(|x| x.optional) {
+                    let counts0 = |l2: usize| if l2 < li && spec.lines[l2].optional { 0 } else { default_counts(l2) };
+                    out.push(Candidate { content: render(spec, k, &over, &counts0), component: comp_label.clone(), class: format!("{label},earlier-lines-absent") });
+                }
                 // the boundary lengths again with everything optional after the component absent (a
                 // length check that only works when something follows, or that mistakes the rest)
                 if (len == c.max || len == c.min) && len > 0 {
